@@ -2954,7 +2954,13 @@ int32 parseCertificate(ssl_t *ssl, unsigned char **cp, unsigned char *end)
         psTraceErrr("No certificate sent to verify\n");
         return MATRIXSSL_ERROR;
     }
-    if (end - c < 3)
+    if (end - c < 3
+#  ifndef USE_CERT_CHAIN_PARSING
+        /* the chain must be inside the message: the loop below trusts
+           certChainLen for the next 3-byte certificate length */
+        || (end - c) < certChainLen
+#  endif
+        )
     {
         ssl->err = SSL_ALERT_DECODE_ERROR;
         psTraceErrr("Invalid Certificate message\n");
